@@ -24,9 +24,11 @@ def run(env):
             for n in ns:
                 plans.append((ctx2, [r.randrange(q_) for _ in range(n)]))
     st1 = []
+    # share-proof labels: ASCII, empty, NUL, non-UTF-8 byte sequences (lossy text conversions must not creep in), long
+    LABELS = ["x:6b", "x:", "x:00", "x:fffe80", "x:c328", "x:" + "".join("%02x" % r.randrange(256) for _ in range(40))]
     for ctx, sks in plans:
         for sk in sks:
-            st1.append({"ctx": ctx, "op": "km_share", "args": [str(sk), "x:6b", script(r, 512)], "tag": "share"})
+            st1.append({"ctx": ctx, "op": "km_share", "args": [str(sk), LABELS[len(st1) % len(LABELS)], script(r, 512)], "tag": "share"})
     o1 = env.harness(st1)
     k = 0
     st2 = []
@@ -38,7 +40,7 @@ def run(env):
             pk, pf, draws, used = o
             items.append((c, ctx, "km_share_r", [c["args"][0], c["args"][1], draws[0]], [pk, pf]))
             pks.append(pk)
-            st2.append({"ctx": ctx, "op": "km_verify_share", "args": [pk, pf, "x:6b"], "_want": True, "tag": "verify_share"})
+            st2.append({"ctx": ctx, "op": "km_verify_share", "args": [pk, pf, c["args"][1]], "_want": True, "tag": "verify_share"})
         orders = list(itertools.permutations(pks)) if len(pks) <= (3 if env.quick else 4) else [tuple(pks), tuple(reversed(pks)), tuple(r.sample(pks, len(pks)))]
         for od in orders:
             st2.append({"ctx": ctx, "op": "combine_pks", "args": [list(od)], "_grp": (ctx, tuple(sks)), "tag": "combine"})
